@@ -2545,7 +2545,12 @@ class StoreProp(Prop):
                 t = nested_ty(g, r.choice([1, 2, 2, 3]))
                 v = g.val(t, 12)
             sg = StoreGen(g, t, v)
-            ops = sg.history(g.rng.choice([6, 15, 40] if tier == 'quick' else [6, 15, 40, 100]), self.p_bad, 0.06)
+            hl = g.rng.choice([6, 15, 40] if tier == 'quick' else [6, 15, 40, 100])
+            if len(show(v)) > 40000:
+                # every held view is read completely after every step: long histories only for values of moderate size (a
+                # 380 kB case of the thorough tier needed more than the per-case limit: exit 2, an infrastructure error)
+                hl = min(hl, 6)
+            ops = sg.history(hl, self.p_bad, 0.06)
             # one in four histories runs LAZILY: nothing is hashed or read before the end
             out.append(show(['storel' if k % 3 == 2 or k % 10 in (5, 6) else 'store', t, v] + ops))
         out += stale_cases(g, max(10, self.n(tier) // 10))
